@@ -3,8 +3,7 @@
              chunks = comma separated hex strings ("-" = a read of 0 bytes), "." = no read at all
              scan2 <last_eof> <RS1 hex> <regex1> <k> <RS2 hex> <regex2> <chunks>
                                          (RS1 a regex RS; the action of record k assigns RS = RS2)
-   answer:   panic                       (assigning RS panics)
-             <stop> <rec>:<rt> ...       (records in order, hex) *)
+   answer:   <stop> <rec>:<rt> ...       (records in order, hex) *)
 open Model
 open Wire
 open Regex_wire
@@ -43,11 +42,9 @@ let chunks_of s =
 let handle = function
   | ["scan"; le; rs; rw; cs] ->
       let r = if rw = "-" then RNone else re_of_wire rw in
-      (match records (bool_of_string le) (bytes_of_hex rs) r (chunks_of cs) with
-       | None -> "panic"
-       | Some (recs, st) ->
-           String.concat " " (stop_name st ::
-             List.map (fun (r, t) -> hex_of_bytes r ^ ":" ^ hex_of_bytes t) recs))
+      let (recs, st) = records (bool_of_string le) (bytes_of_hex rs) r (chunks_of cs) in
+      String.concat " " (stop_name st ::
+        List.map (fun (r, t) -> hex_of_bytes r ^ ":" ^ hex_of_bytes t) recs)
   | ["scan2"; le; rs1; rw1; k; rs2; rw2; cs] ->
       let (recs, st) = records_sched (bool_of_string le) (bytes_of_hex rs1) (re_of_wire rw1)
                          (nat_of_int (int_of_string k)) (bytes_of_hex rs2) (re_of_wire rw2) (chunks_of cs) in
